@@ -10,7 +10,11 @@
  *   rfcprime                                       -> OpenSSL's own RFC 3526 group-14 prime
  * Output buffers are exact-size malloc blocks pre-filled with 0xaa.
  *
- * C20 case lines (only in the -DDRV_DH_WIPE build, which is linked with --wrap for the BN_* calls
+ * In the -DDRV_DH_WRAP build also (C10, exponent split):
+ *   xgenpub / xcompute ...  as above, result "ok <hex> e=<e1>,<e2>" with the two exponents that
+ *   crypto_dh.c handed to BN_mod_exp (hex, "n" prefix when negative)
+ *
+ * C20 case lines (only in the -DDRV_DH_WRAP build, which is linked with --wrap for the BN_* calls
  * made by crypto_dh.c and installs OpenSSL memory hooks):
  *   wipe genpub  <priv32> <blind32> <k>
  *   wipe compute <pub256> <priv32> <blind32> <k>
@@ -35,7 +39,7 @@
 static struct { int fail; uint8_t data[64]; size_t len; } ent_q[MAXENT];
 static int ent_n = 0, ent_pos = 0;
 
-#ifdef DRV_DH_WIPE
+#ifdef DRV_DH_WRAP
 static int step_fails(void);
 #endif
 
@@ -44,7 +48,7 @@ crypto_entropy_read(uint8_t * buf, size_t buflen)
 {
 	size_t i;
 
-#ifdef DRV_DH_WIPE
+#ifdef DRV_DH_WRAP
 	if (step_fails())
 		return (-1);
 #endif
@@ -91,7 +95,7 @@ outbuf(size_t n)
 	return (p);
 }
 
-#ifdef DRV_DH_WIPE
+#ifdef DRV_DH_WRAP
 /* ================= C20: failure injection, release events, memory scanning ================= */
 static int fail_at = -1;	/* which fallible step fails */
 static int step_no = 0;
@@ -252,8 +256,30 @@ int __wrap_BN_sub(BIGNUM * r, const BIGNUM * a, const BIGNUM * b)
 { return (step_fails() ? 0 : __real_BN_sub(r, a, b)); }
 int __wrap_BN_set_word(BIGNUM * a, BN_ULONG w)
 { return (step_fails() ? 0 : __real_BN_set_word(a, w)); }
+/* the exponents handed to BN_mod_exp during the current call, for the x* case lines */
+static char explog[512];
+static size_t explen = 0;
+
+static void
+log_exponent(const BIGNUM * p)
+{
+	uint8_t buf[128]; int n = BN_num_bytes(p), i;
+	if (n > 100 || explen + 2 * (size_t)n + 8 > sizeof(explog)) return;
+	explog[explen++] = explen ? ',' : '=';
+	if (BN_is_negative(p)) explog[explen++] = 'n';
+	BN_bn2bin(p, buf);
+	if (n == 0) explog[explen++] = '-';
+	for (i = 0; i < n; i++)
+		explen += (size_t)snprintf(explog + explen, 3, "%02x", buf[i]);
+	explog[explen] = 0;
+}
+
 int __wrap_BN_mod_exp(BIGNUM * r, const BIGNUM * a, const BIGNUM * p, const BIGNUM * m, BN_CTX * c)
-{ return (step_fails() ? 0 : __real_BN_mod_exp(r, a, p, m, c)); }
+{
+	if (step_fails()) return (0);
+	log_exponent(p);
+	return (__real_BN_mod_exp(r, a, p, m, c));
+}
 int __wrap_BN_mod_mul(BIGNUM * r, const BIGNUM * a, const BIGNUM * b, const BIGNUM * m, BN_CTX * c)
 { return (step_fails() ? 0 : __real_BN_mod_mul(r, a, b, m, c)); }
 
@@ -343,7 +369,7 @@ wipe_warmup(void)
 	(void)ERR_error_string(ERR_get_error(), NULL);
 	ERR_clear_error();
 }
-#endif /* DRV_DH_WIPE */
+#endif /* DRV_DH_WRAP */
 
 int
 main(int argc, char ** argv)
@@ -351,7 +377,7 @@ main(int argc, char ** argv)
 	char * line; char * tok[8];
 
 	(void)argc;
-#ifdef DRV_DH_WIPE
+#ifdef DRV_DH_WRAP
 	if (!CRYPTO_set_mem_functions(hook_malloc, hook_realloc, hook_free)) {
 		fprintf(stderr, "CRYPTO_set_mem_functions refused\n");
 		return (2);
@@ -359,7 +385,7 @@ main(int argc, char ** argv)
 #endif
 	warnp_setprogname(argv[0]);
 	setvbuf(stdout, NULL, _IOLBF, 0);
-#ifdef DRV_DH_WIPE
+#ifdef DRV_DH_WRAP
 	wipe_warmup();
 #endif
 	while ((line = drv_getline()) != NULL) {
@@ -408,9 +434,27 @@ main(int argc, char ** argv)
 				BN_bn2bin(p, &buf[256 - BN_num_bytes(p)]);
 			drv_puthex(buf, 256); printf("\n");
 			BN_free(p);
-#ifdef DRV_DH_WIPE
+#ifdef DRV_DH_WRAP
 		} else if (n >= 2 && strcmp(tok[0], "wipe") == 0) {
 			wipe_case(n, tok);
+		} else if ((n == 3 && strcmp(tok[0], "xgenpub") == 0) ||
+		    (n == 4 && strcmp(tok[0], "xcompute") == 0)) {
+			/* as genpub / compute, plus the exponents seen by BN_mod_exp */
+			int comp = (n == 4);
+			uint8_t * pub = comp ? drv_unhex(tok[1], &l, 0) : NULL;
+			uint8_t * priv = drv_unhex(tok[comp ? 2 : 1], &l, 0);
+			uint8_t * out = outbuf(256);
+			int rc;
+			ent_push(tok[comp ? 3 : 2]);
+			explen = 0; explog[0] = 0; fail_at = -1;
+			rc = comp ? crypto_dh_compute(pub, priv, out) : crypto_dh_generate_pub(out, priv);
+			if (rc == 0) {
+				printf("ok "); drv_puthex(out, 256);
+				if (explen) printf(" e%s", explog);
+				printf("\n");
+			} else
+				printf("err\n");
+			free(pub); free(priv); free(out);
 #endif
 		} else
 			printf("bad-case\n");
